@@ -165,11 +165,15 @@ def run(F, rep):
     if gr:
         ex = Exprs(gr)
         vals = set()
+        allv = []
         for l, n in gr.local_names().items():
-            if n == "contribution_start_in_segment":
-                for d in ex.defs.get(l, []):
-                    if d[0] == "rv":
-                        vals.add(fmt(strip_tags(ex.rvalue(d[3]))))
+            if gr.locals[l]["ty"] != "usize":
+                continue
+            vs = {fmt(strip_tags(ex.rvalue(d[3]))) for d in ex.defs.get(l, []) if d[0] == "rv"}
+            if "self.kmer_length" in vs:
+                allv.append(vs)
+        # the contribution start is the local that is either 0 (first segment) or k
+        vals = allv[0] if len(allv) == 1 else set().union(*allv) if allv else set()
         rep.ob("C01-OVL", "range reader starts a non-first segment's contribution at byte k", vals == {"0", "self.kmer_length"}, detail=str(sorted(vals)),
                key="C01-OVL | reader get_contig_range | contribution start")
 
@@ -183,15 +187,19 @@ def run(F, rep):
             if t.get("indirect") or not t["callee"].endswith("Vec::<T, A>::push") or t["sp"].get("exp"):
                 continue
             ex = ex or Exprs(f)
-            recv = fmt(ex.operand(t["args"][0]))
-            if not recv.endswith("segment_in_group_ids"):
-                continue
+            # bool locals defined as `group_id >= 16` (the raw/LZ selector)
+            lzflags = {n for l, n in f.local_names().items() if f.locals[l]["ty"] == "bool" and
+                       any(d[0] == "rv" and re.fullmatch(r"Le\(16, .*group_id\)", fmt(strip_tags(ex.rvalue(d[3])))) for d in ex.defs.get(l, []))}
+            a0 = t["args"][0]
+            rty = f.locals[a0["pl"]["l"]]["ty"] if a0["k"] in ("copy", "move") else ""
+            if not rty.endswith("Vec<(usize, u32)>"):
+                continue            # the per-pack list of (segment index, in-group id) records
             v = ex.operand(t["args"][1])
             if isinstance(v, tuple) and v[0] == "agg" and dict(v[2]).get("1") == ("const", 0):
                 nb += 1
                 conds = [(fmt(strip_tags(c[0])), cond_bool(c[1], c[2])) for c in dominating_conds(f, bi, ex)]
-                lz = any(("use_lz_encoding" in c or re.fullmatch(r"Le\(16, .*group_id\)", c)) and val is True for c, val in conds)
-                empty = any("is_empty(contig_data)" in c and val is True for c, val in conds)
+                lz = any((re.fullmatch(r"Le\(16, .*group_id\)", c) or (c in lzflags)) and val is True for c, val in conds)
+                empty = any(re.fullmatch(r"Vec::is_empty\((\w+|[\w.]*contig_data)\)", c) and val is True for c, val in conds)
                 rep.ob("C01-EMPTY", "writer %s records in-group id 0 only for an empty LZ delta" % f.key.split("::", 1)[-1], lz and empty,
                        detail="guards %s" % [c for c in conds if c[1] is not None][-3:], site=site_of(f, t), key="C01-EMPTY | %s | id 0" % f.key)
     rep.floor("C01-EMPTY", nb, 2, "writer sites that record in-group id 0 for a delta")
@@ -207,7 +215,8 @@ def run(F, rep):
                     if ("Eq(0, desc.in_group_id)", True) in conds and "segment_cache" in e and "clone" in e:
                         ok0 = True
         for l, n in gs.local_names().items():
-            if n == "decoded":
+            dvals = [fmt(strip_tags(ex.rvalue(d[3]) if d[0] == "rv" else ex.call(d[3]))) for d in ex.defs.get(l, []) if d[0] != "partial"]
+            if any("LZDiff::decode" in v for v in dvals) and len(dvals) >= 2:
                 vals = []
                 for d in ex.defs.get(l, []):
                     v = ex.rvalue(d[3]) if d[0] == "rv" else ex.call(d[3])
